@@ -3,6 +3,7 @@
 import json, os
 V = os.path.dirname(os.path.dirname(os.path.abspath(__file__)))
 ALL = ["C%02d" % i for i in range(1, 19)]
+COMMON_NOTE = "Trusted: TLC/SANY/CommunityModules, the Go projection (pixel classes by == against the scheme colours; runes = Go's own iteration of the content string), the symbology tables written from the standards in tools/gentables1d.py (structural laws ASSUMEd in the modules)."
 
 CLAIMED = {
  "C18": dict(
@@ -33,6 +34,36 @@ CLAIMED = {
    note="Trusted: TLC/SANY/CommunityModules/Apalache, the Go projection (pixel colour classes by == against the reference colour list). Request sizes beyond the "
         "recorded ones rest on the Apalache lemma plus the code matching ScaleAlgo on the window.",
    technique="TLA+ model checking (algorithm vs declarative spec) + Apalache lemma + pixel-level trace validation (TLC)", ref="5/C09"),
+ "C05": dict(
+   text="Code128Enc.tla transcribes the encoder's code-set chooser; TLC checks the product encoder model || reader automaton for every string over a "
+        "representative alphabet up to length 5 (thorough 6): what the model emits decodes to the input and it refuses exactly the unrepresentable strings. "
+        "Every image the real encoder returns (all single characters, pairs, instantiated class strings, digit runs in every context, random strings up to 80, "
+        "both checksum variants, colour variants) is validated by Trace1D.tla with the reference reader of Code128.tla: 11-module table patterns, stop pattern, "
+        "modulo-103 check character, code-set automaton, decoded runes = content. The quick tier requires all 106 symbol values to have been decoded.",
+   note=COMMON_NOTE, technique="TLA+ model checking of encoder-model x reader product + trace validation with a TLA+ reference reader (TLC)", ref="5/C05"),
+ "C06": dict(
+   text="MC_EAN explores the GS1 check-digit automaton for all digit strings (through a VIEW), shows exactly one final digit is accepted and that the reader "
+        "inverts the standard's drawing rule. Recorded calls covering every (first digit, position, digit) cell of EAN-13 and every (position, digit) cell of EAN-8, "
+        "with right and wrong check digits, all wrong lengths, non-digits and multi-byte runes at every position, are validated by Trace1D.tla: accept/reject exactly "
+        "by the rule, guards, L/G/R patterns, parity pattern, decoded number = Content() = completed input, kind by length.",
+   note=COMMON_NOTE + " The exhaustive 10^7/10^8 acceptance tables are not built; 13-digit acceptance is sampled.", technique="TLA+ model checking of the check automaton + trace validation with a TLA+ reference reader (TLC)", ref="5/C06"),
+ "C07": dict(
+   text="MC_Code39 checks, for every ASCII character (thorough: every pair), that the full-ASCII spelling resolves back and that the Code 39 / Code 93 readers invert "
+        "the standards' drawing rules with and without check characters, with weights wrapping at 15/20. Recorded symbols for both symbologies x includeChecksum x "
+        "fullASCII (all single characters, seeded/all pairs, random lengths up to 60, rejected rune classes) are validated by Trace1D.tla: start/stop, patterns, gaps / "
+        "termination bar, modulo-43 / C and K check characters present exactly when requested, shift pairs resolved, decoded text = input.",
+   note=COMMON_NOTE, technique="TLA+ model checking of reader vs drawing rule + trace validation with TLA+ reference readers (TLC)", ref="5/C07"),
+ "C08": dict(
+   text="MC_1DSmall checks for every Codabar string / digit string up to length 4 (thorough 5) that the readers invert the drawing rules (wide = 2 or 3 modules), that "
+        "the interleaved pairing leaves nothing pending and that the check digit is the unique digit making the 3-1 sum a multiple of ten. Recorded calls (all Codabar "
+        "strings over 23 characters up to length 3 plus seeded ones, all digit strings up to length 4 for both 2-of-5 variants, AddCheckSum on all of them, random longer "
+        "ones) are validated by Trace1D.tla with run-length readers.",
+   note=COMMON_NOTE + " Exhaustive Codabar length 5-6 and 2-of-5 length 6-7 are sampled, not exhaustive.", technique="TLA+ model checking of reader vs drawing rule + trace validation with TLA+ reference readers (TLC)", ref="5/C08"),
+ "C14": dict(
+   text="The check value is recomputed inside the TLA+ readers from the symbol values recovered from the image (EAN final digit, Code 128 modulo 103, Code 39 modulo 43) "
+        "and compared with the recorded CheckSum() for all four EAN input lengths, random Code 128 and Code 39 contents in every option mix; each barcode of a sample is "
+        "then scaled 1-3 times and TraceScale.tla requires the interface and value to be preserved link by link. Model phase: check automata of MC_EAN / MC_Code39.",
+   note=COMMON_NOTE, technique="trace validation with TLA+ reference readers and the Scale handle-table spec (TLC)", ref="5/C14"),
 }
 
 NOT_YET = "check not built yet in this revision (planned per DESIGN.md section 10); not claimed"
